@@ -246,7 +246,7 @@ impl Scenario for DivScenario {
                         if kind == Kind::List && inc {
                             continue;
                         }
-                        for mirror in [true, false] {
+                        for (mirror, cancel) in [(true, None), (false, None), (false, Some(1u32))] {
                             let sub0 = subscribe(c.as_ref().unwrap(), inc, buffer);
                             let sub;
                             if let Some((tx, rx)) = ship.as_mut() {
@@ -266,7 +266,7 @@ impl Scenario for DivScenario {
                             } else {
                                 sub = sub0;
                             }
-                            let label = format!("join{pos}/{}/{}", if inc { "incremental" } else { "snapshot" }, if mirror { "mirror" } else { "hand" });
+                            let label = format!("join{pos}/{}/{}", if inc { "incremental" } else { "snapshot" }, if mirror { "mirror" } else if cancel.is_some() { "hand-with-abandoned-recvs" } else { "hand" });
                             let idx = {
                                 let mut o = o2.lock().unwrap();
                                 o.consumers.push(Consumer { label, start: pos, mirror, max_size, ..Default::default() });
@@ -278,7 +278,7 @@ impl Scenario for DivScenario {
                                 watchers.push((idx, env.spawn("watch", tag, watch_mirror(m, idx, o2.clone(), stop_rx.clone()))));
                             } else {
                                 let states = o2.lock().unwrap().consumers[idx].states.clone();
-                                hands.push((idx, env.spawn("hand", tag, sub.by_hand_traced(Some(states)))));
+                                hands.push((idx, env.spawn("hand", tag, sub.by_hand_opts(Some(states), cancel))));
                             }
                         }
                     }
@@ -1060,7 +1060,7 @@ pub fn run(tier: Tier, seed: u64) -> i32 {
     let g = grid(tier);
     rep.extra.insert("grid_cases".into(), serde_json::json!(g.len()));
     rep.add("subscriber speed patterns x event buffers x size limits x endings x cut points x joiners; forged inapplicable events; joining a mirror under a held borrow", explore("C14", g, p0, &known));
-    let p1 = Params { max_dev: if q { 1 } else { 2 }, preempt: true, seeds: vec![seed], time_limit: Duration::from_secs(if q { 20 } else { 1500 }), determinism_every: 101, ..Default::default() };
+    let p1 = Params { max_dev: if q { 1 } else { 2 }, preempt: true, seeds: vec![seed], time_limit: Duration::from_secs(if q { 35 } else { 1500 }), determinism_every: 101, ..Default::default() };
     rep.add("delivery schedules of core cases (lag, drop, size limit, remote, cut, joining a mirror)", explore("C14", sched_core(tier), p1, &known));
     rep.rule = "a case = (collection type, script of 3 (quick) / 2,3,5 (thorough) single-event operations from contents [1], subset of operations after which the consumers run to quiescence (all 2^n speed patterns), event buffer 1/2/(3)/1024, mirror size limit (1)/2/(3)/100, ending done / done+drop / drop / keep, local or remote consumers, connection cut after k operations, a second group of subscribers joining mid-way); consumers per group: snapshot and incremental, a watched mirror (every change observed through borrow_and_update/changed, then borrow twice and detach) and a hand-replayed stream with its replica state recorded after every event. Forged cases: a peer-controlled broadcast sender feeds a vec/deque mirror an out-of-range Set/Insert/Remove/SwapRemove or a Resize/Insert/Push past max_size after 0/1 valid events. Join cases: a subscriber joins a mirror while a reader holds a borrow and an event is queued. distinct = distinct tuple of per-consumer endings; non-trivial = at least one consumer ended with an error.".into();
     rep.assumptions = vec![
